@@ -6,6 +6,8 @@
  * `ok` only if every listed section has a key list, and every listed key exists and has a string value. */
 #include <plibsys.h>
 #include <stdio.h>
+#include <sys/wait.h>
+#include <sys/stat.h>
 #include <stdlib.h>
 #include <string.h>
 #include <stdint.h>
@@ -476,14 +478,36 @@ static void do_strtokb (char **t) {
 	free (s); free (d);
 }
 
+/* `fifo 1`: the next parses get the same bytes through a named pipe fed by a forked writer (a path that cannot be
+ * rewound or sought in): "any file content" does not depend on the kind of file it comes from */
+static int via_fifo;
 static void do_parse (void) {
-	FILE *f = fopen (path, "wb");
-	if (f == NULL || (data_len > 0 && fwrite (data, 1, data_len, f) != data_len) || fclose (f) != 0) {
-		puts ("io-error");
-		return;
+	PIniFile *ini;
+	pid_t wr = -1;
+	char fpath[80];
+	if (via_fifo) {
+		snprintf (fpath, sizeof fpath, "%s.fifo", path);
+		unlink (fpath);
+		if (mkfifo (fpath, 0600) != 0) { puts ("io-error"); return; }
+		fflush (stdout);
+		if ((wr = fork ()) == 0) {
+			int fd = open (fpath, O_WRONLY);
+			size_t off = 0;
+			while (fd >= 0 && off < data_len) { ssize_t w = write (fd, data + off, data_len - off); if (w <= 0) break; off += (size_t) w; }
+			_exit (0);
+		}
+		ini = p_ini_file_new (fpath);
+	} else {
+		FILE *f = fopen (path, "wb");
+		if (f == NULL || (data_len > 0 && fwrite (data, 1, data_len, f) != data_len) || fclose (f) != 0) {
+			puts ("io-error");
+			return;
+		}
+		ini = p_ini_file_new (path);
 	}
-	PIniFile *ini = p_ini_file_new (path);
-	if (ini == NULL || !p_ini_file_parse (ini, NULL) || !p_ini_file_is_parsed (ini)) {
+	int parsed = ini != NULL && p_ini_file_parse (ini, NULL) && p_ini_file_is_parsed (ini);
+	if (via_fifo) { int st; if (wr > 0) waitpid (wr, &st, 0); unlink (fpath); }
+	if (!parsed) {
 		puts ("parse-failed");
 		p_ini_file_free (ini);
 		return;
@@ -548,6 +572,7 @@ int main (void) {
 		}
 		else if (!strcmp (op, "reset") && n == 1) { data_len = 0; puts ("ok"); }
 		else if (!strcmp (op, "wfcheck") && n == 1) puts ("wf");
+		else if (!strcmp (op, "fifo") && n == 2) { via_fifo = atoi (toks[1]) != 0; puts ("ok"); }
 		else if ((!strcmp (op, "parse") || !strcmp (op, "gparse")) && n == 1) do_parse ();
 		else if ((!strcmp (op, "get") || !strcmp (op, "gget")) && n == 7) do_get (toks);
 		else if (!strcmp (op, "life") && n == 3) do_life (toks);
